@@ -578,6 +578,20 @@ def module_world(mod, globals_, resolver=None, max_steps=20000):
   module-level function of `mod` is callable the same way and `globals_`
   supplies the remaining global names."""
   from rules import _minieval as me
+
+  class Interp(me.Interp):
+    """An `Obj` whose kinds start with "closed" models a plain `object()`
+    sentinel: reading any attribute of it raises AttributeError, as at run
+    time (for other records an unknown attribute is outside the model)."""
+
+    def getattr_(self, v, attr):
+      if isinstance(v, me.Obj) and v.kinds[:1] == ("closed",) and \
+          attr not in v.attrs and attr not in v.methods:
+        raise me.Raised("AttributeError", (attr,))
+      return super().getattr_(v, attr)
+
+    def sub(self, fn):
+      return Interp(fn, self.globals, self.max_steps, self.resolver)
   world = dict(globals_)
 
   def wrap(fn):
@@ -587,12 +601,12 @@ def module_world(mod, globals_, resolver=None, max_steps=20000):
         raise me.Outside(f"call of {fn.name} does not fit its signature")
       args = dict(zip(params, a))
       args.update(kw)
-      return me.Interp(fn, world, max_steps, resolver).call(args)
+      return Interp(fn, world, max_steps, resolver).call(args)
     return call
   for name, fn in mod.functions.items():
     if name not in world and isinstance(fn, ast.FunctionDef):
       world[name] = wrap(fn)
 
   def run(name, **args):
-    return me.Interp(mod.func(name), world, max_steps, resolver).call(args)
+    return Interp(mod.func(name), world, max_steps, resolver).call(args)
   return run
